@@ -83,7 +83,26 @@ def coord(c, key):
         return numpy.array(v, dtype=getattr(numpy, form))
     if form == "iter":
         return iter(v)
+    if form == "float":                   # floats of integral value (from_vector matches them by equality)
+        return tuple(float(x) for x in v)
+    if form == "negzero":
+        return tuple(-0.0 if x == 0 else float(x) for x in v)
+    if form in ("npfloat64", "npfloat32"):
+        import numpy
+        return tuple(getattr(numpy, form[2:])(x) for x in v)
+    if form == "floatarray":
+        import numpy
+        return numpy.array(v, dtype=numpy.float64)
     raise RuntimeError("unknown form " + form)
+
+
+def size(c, key):
+    """width / height as a Python int or as a numpy integer scalar of the dtype c["wform"]"""
+    v = c[key]
+    if v is None or not c.get("wform"):
+        return v
+    import numpy
+    return getattr(numpy, c["wform"])(v)
 
 
 def as_form(v, form):
@@ -99,7 +118,26 @@ def as_form(v, form):
         return map(int, v)
     if form == "iter":
         return iter(v)
+    if form == "float":                   # floats of integral value (from_vector matches them by equality)
+        return tuple(float(x) for x in v)
+    if form == "negzero":
+        return tuple(-0.0 if x == 0 else float(x) for x in v)
+    if form in ("npfloat64", "npfloat32"):
+        import numpy
+        return tuple(getattr(numpy, form[2:])(x) for x in v)
+    if form == "floatarray":
+        import numpy
+        return numpy.array(v, dtype=numpy.float64)
     raise RuntimeError("unknown form " + form)
+
+
+def size(c, key):
+    """width / height as a Python int or as a numpy integer scalar of the dtype c["wform"]"""
+    v = c[key]
+    if v is None or not c.get("wform"):
+        return v
+    import numpy
+    return getattr(numpy, c["wform"])(v)
 
 
 KEEP = []          # results handed to "callers" stay alive (and stay mutated) for the rest of the process
@@ -205,7 +243,8 @@ def run_case(c):
         if fn == "ldf":
             rnd = Scripted(c["ks"])
             route_utils.random = rnd
-            out = route_utils.longest_dimension_first(coord(c, "v"), coord(c, "start"), c["width"], c["height"])
+            out = route_utils.longest_dimension_first(coord(c, "v"), coord(c, "start"), size(c, "width"),
+                                                      size(c, "height"))
             res = []
             for direction, xy in out:
                 if not isinstance(direction, Links):
@@ -237,6 +276,10 @@ def run_case(c):
             return ["ok", ints(geometry.to_xyz(coord(c, "xy")))]
         if fn == "minimise":
             return ["ok", ints(geometry.minimise_xyz(coord(c, "v")))]
+        if fn == "hexprefix":             # a generator of a large radius, consumed only for its first n chips
+            import itertools
+            g = geometry.concentric_hexagons(c["radius"], coord(c, "start"))
+            return ["ok", [ints(xy) for xy in itertools.islice(g, c["n"])]]
         if fn == "hex":
             out = []
             for xy in geometry.concentric_hexagons(c["radius"], coord(c, "start")):
